@@ -94,6 +94,9 @@ func checkC10(p *Prog, r *Report) {
 	r.rule("R10.3", "Left-overs are reused, avoided or removed under the audited conditions (tables/guards.tsv rows listing C10): fresh names and ids are tested against the names on the DEVICE (genUniqRuleNames / genUniqGroupNames of PAN-OS and NSX, generateNamesForTransfer.setName of Cisco); an identical group found on the device is taken over only if not already needed (findGroupOnDevice, equalizedGroups, adaptGroup); deletion candidates are the objects that are not needed and carry a generated name or are marked toDelete (deleteUnused and its protecting walk).")
 	ruleGuardTable(p, r, "R10.3", "C10")
 	ruleMustCalls(p, r, "R-PH", "C10")
+	// a left-over object is reused only when it is identical to the target's: the predicates that
+	// decide "identical" treat device and target alike (a half-created object is a subset)
+	ruleComparatorsSymmetric(p, r, map[string]bool{"cisco": true, "panos": true, "nsx": true, "linux": true}, 10)
 	r.Trusted = []string{"go/ssa, VTA call graph", "the audited rows of tables/guards.tsv and tables/phases.tsv"}
 	r.NotDec = "that the second run converges: needs the device state after every prefix of an emitted script, i.e. executing the script on a device model"
 }
